@@ -77,6 +77,44 @@ def _pair_concrete(k1, f1, k2, f2):
     return got == base2, True, {"first": KINDS[k1][3] + " (" + KINDS[k1][1] + ")", "then": KINDS[k2][3] + " (" + KINDS[k2][1] + ")", "fixed": [f1, f2]}
 
 
+def _pair_ctor_concrete(k1, k2):
+    """Both analyses build their MachineModel / ArchSemantics through the REAL constructors in one
+    process (process-wide runtime cache live; only the on-disk pickle caches are bypassed)."""
+    from osaca.semantics import MachineModel, ArchSemantics
+    base2 = _baseline(k2, False)
+    gc, wc = MachineModel._get_cached, MachineModel._write_in_cache
+    saved = dict(MachineModel._runtime_cache)
+    MachineModel._get_cached = lambda s, p: False
+    MachineModel._write_in_cache = lambda s, p: None
+    MachineModel._runtime_cache.clear()
+    try:
+        out = None
+        for k in (k1, k2):
+            m = MachineModel(arch=KINDS[k][1])
+            sem = ArchSemantics(m)
+            out = _key(analyze(KINDS[k][2], KINDS[k][1], whole=True, fixed=False, env=(m, sem)))
+    finally:
+        MachineModel._get_cached, MachineModel._write_in_cache = gc, wc
+        MachineModel._runtime_cache.clear()
+        MachineModel._runtime_cache.update(saved)
+    return out == base2, True, {"first": KINDS[k1][3] + " (" + KINDS[k1][1] + ")", "then": KINDS[k2][3] + " (" + KINDS[k2][1] + ")", "via": "real constructors"}
+
+
+CTOR_KINDS = [0, 3, 7, 8]      # two x86 and two AArch64 kinds (YAML loading through the constructors is slow)
+
+
+def pairs_ctor(k1: int, k2: int) -> bool:
+    """
+    pre: 0 <= k1 < 4 and 0 <= k2 < 4
+    post: _
+    """
+    lo, hi = shard(16)
+    if not (lo <= k1 * 4 + k2 < hi):
+        return True
+    ok, nt, sample = native(_pair_ctor_concrete, CTOR_KINDS[pick(k1, 4)], CTOR_KINDS[pick(k2, 4)])
+    return verdict(ok, nontrivial=nt, sample=sample)
+
+
 def _is_rmw(k):
     return KINDS[k][3] == "read-modify-write"
 
@@ -124,6 +162,7 @@ def frame(k: int, fixed: bool) -> bool:
 CELLS = {
     "pairs": {"fn": pairs, "bound": "all ordered pairs over %d kernel kinds (zen1, tx2; mixing ISAs) x --fixed on/off for each: second report vs report on freshly loaded models" % len(KINDS),
               "budget": {"quick": 170, "thorough": 600}, "shards": 11},
+    "pairs_ctor": {"fn": pairs_ctor, "bound": "all ordered pairs over 2 x86 + 2 AArch64 kinds with both analyses constructing MachineModel/ArchSemantics through the real constructors in one process (runtime cache live, mixing ISAs)", "budget": {"quick": 170, "thorough": 600}, "shards": 16},
     "frame": {"fn": frame, "bound": "frame condition: model tables, ISA tables and InstructionForm default arguments unchanged by analysing each kernel kind", "budget": {"quick": 170, "thorough": 300}},
 }
 
